@@ -88,6 +88,9 @@ func c06Run(r *core.Run) {
 	arts[2] = c06Artifact{"pck-root-copy", world.TPck, w.RootInQuote.X.NotAfter, early, false, O0}
 	// TCB Info
 	w.Tcb.Next = exp(3)
+	if t.Bool() { // RFC 3339 allows a fraction of a second in nextUpdate
+		w.Tcb.Next = w.Tcb.Next.Add(time.Duration(1+t.Draw(999)) * time.Millisecond)
+	}
 	w.Tcb.Issue = T0.AddDate(0, 0, -30)
 	arts[3] = c06Artifact{"tcbinfo-nextUpdate", world.TTcb, w.Tcb.Next, early, false, O1}
 	w.TcbSignerInTcb = tcbs(world.Window{NotBefore: nb(2), NotAfter: exp(4)})
@@ -96,6 +99,9 @@ func c06Run(r *core.Run) {
 	arts[5] = c06Artifact{"tcbinfo-root-copy", world.TTcb, w.RootInTcb.X.NotAfter, early, false, O1}
 	// QE Identity
 	w.QE.Next = exp(6)
+	if t.Bool() {
+		w.QE.Next = w.QE.Next.Add(time.Duration(1+t.Draw(999)) * time.Millisecond)
+	}
 	w.QE.Issue = T0.AddDate(0, 0, -30)
 	arts[6] = c06Artifact{"qeidentity-nextUpdate", world.TQE, w.QE.Next, early, false, O1}
 	w.TcbSignerInQE = tcbs(world.Window{NotBefore: nb(3), NotAfter: exp(7)})
@@ -120,6 +126,20 @@ func c06Run(r *core.Run) {
 	// Root CA CRL
 	w.RootCrl.This, w.RootCrl.Next = T0.AddDate(0, 0, -30), exp(12)
 	arts[12] = c06Artifact{"rootcrl-nextUpdate", world.TRootCrl, w.RootCrl.Next, early, false, O2}
+	// issue dates are not part of the claim, but a freshness test written in terms of them must not let an
+	// expired artifact through: in a third of the worlds the documents carry a legal but unusual issueDate
+	// (absent, null, year 1, 1700, 9999) and the CRLs a thisUpdate centuries back.  In those worlds only
+	// acceptances are judged (a verifier may have its own opinion on such issue dates).
+	oddIssue := ""
+	if t.Chance(1, 3) {
+		oddIssue = []string{"-", "null", `"0001-01-01T00:00:00Z"`, `"1700-01-01T00:00:00Z"`, `"9999-12-31T23:59:59Z"`}[t.Draw(5)]
+		w.Tcb.IssueRaw, w.QE.IssueRaw = oddIssue, oddIssue
+		if t.Bool() {
+			old := time.Date(1700, 1, 1, 0, 0, 0, 0, time.UTC)
+			w.PckCrl.This, w.RootCrl.This = old, old
+		}
+		r.Probe("unusual_issue_date")
+	}
 	w.CAKey = A.PlatKey
 	w.Build(false)
 	// the artifacts carry whole-second times; read them back from what was actually issued
@@ -160,6 +180,10 @@ func c06Run(r *core.Run) {
 		if got == want {
 			return
 		}
+		if oddIssue != "" && !got {
+			r.Count("rejected_with_unusual_issue_date(not judged)", 1)
+			return
+		}
 		_ = a
 		_ = kind
 		if got && !want {
@@ -168,6 +192,7 @@ func c06Run(r *core.Run) {
 			r.Violate("C06:rejected-in-date:"+errClass(o), "%s at level %s: rejected although every artifact is in date at its own time (times %s): %s", item, optNames[level], fmtTimes(ts), o.ErrText())
 		}
 	}
+	subSecond := time.Duration(1+t.Draw(998)) * time.Millisecond
 	// control at T0
 	for level := O0; level <= O2; level++ {
 		check("control@T0", "control", nil, level, base)
@@ -175,10 +200,12 @@ func c06Run(r *core.Run) {
 	// (i) attribution and (ii) non-attribution around every expiry
 	for ai := range arts {
 		a := &arts[ai]
-		for _, d := range []int{-1, 0, 1} {
-			at := a.notAfter.Add(time.Duration(d) * time.Second)
+		// the grid the property names, and instants inside the second that follows the expiry: expired is
+		// expired one nanosecond after the deadline, not from the next whole second on
+		for _, d := range []time.Duration{-time.Second, 0, time.Nanosecond, subSecond, time.Second - time.Nanosecond, time.Second} {
+			at := a.notAfter.Add(d)
 			for f := 0; f < 5; f++ {
-				item := fmt.Sprintf("expiry:%s%+ds:field=%s", a.name, d, fieldNames[f])
+				item := fmt.Sprintf("expiry:%s%+s:field=%s", a.name, offName(d, subSecond), fieldNames[f])
 				if !r.Item(item) {
 					continue
 				}
@@ -194,9 +221,12 @@ func c06Run(r *core.Run) {
 					}
 					check(item, kind, a, level, ts)
 				}
-				r.State("expiry %s d=%d field=%s", a.name, d, fieldNames[f])
+				r.State("expiry %s d=%s field=%s", a.name, offName(d, subSecond), fieldNames[f])
 				if d == 0 && f == a.field {
 					r.Probe("instant_exactly_at_expiry")
+				}
+				if d > 0 && d < time.Second && f == a.field {
+					r.Probe("instant_inside_the_second_after_expiry")
 				}
 				r.EndItem()
 			}
@@ -231,8 +261,11 @@ func c06Run(r *core.Run) {
 			switch t.Draw(4) {
 			case 0:
 				ts[f] = T0.Add(time.Duration(t.Draw(6000*86400)-600*86400) * time.Second)
-			case 1: // near some artifact's expiry
+			case 1: // near some artifact's expiry, sometimes inside a second
 				ts[f] = arts[t.Draw(13)].notAfter.Add(time.Duration(t.Draw(5)-2) * time.Second)
+				if t.Bool() {
+					ts[f] = ts[f].Add(time.Duration(t.Draw(1000)) * time.Millisecond)
+				}
 			default:
 				ts[f] = T0.Add(time.Duration(t.Draw(300*86400)) * time.Second).Add(time.Duration(f) * time.Second)
 			}
@@ -292,10 +325,17 @@ func c06Run(r *core.Run) {
 	r.Sample("world with 13 artifacts expiring at 13 distinct instants (>1 year apart): grid {-1s,at,+1s} x 5 time-set fields per expiry, notBefore grid for the 4 path roles, 24 skewed time sets, monotone timeline; e.g. only TcbInfo placed 1 s after the TCB-Info signer's notAfter => rejected, only PckCertChain placed there => accepted")
 }
 
+func offName(d, sub time.Duration) string {
+	if d == sub {
+		return "+sub-second"
+	}
+	return d.String()
+}
+
 func fmtTimes(ts [5]time.Time) string {
 	s := ""
 	for i, t := range ts {
-		s += fmt.Sprintf("%s=%s ", fieldNames[i], t.UTC().Format("2006-01-02T15:04:05Z"))
+		s += fmt.Sprintf("%s=%s ", fieldNames[i], t.UTC().Format(time.RFC3339Nano))
 	}
 	return s
 }
@@ -304,7 +344,7 @@ func init() {
 	register(&core.Check{
 		ID:    "C06",
 		Level: "fault_enumeration",
-		Rule: "per run one seeded world whose 13 artifacts (PCK leaf / intermediate / root copy; TCB-Info nextUpdate, signer, root copy; QE-Identity nextUpdate, signer, root copy; PCK-CRL nextUpdate, issuer, root copy; Root-CRL nextUpdate) expire at 13 distinct instants in tape-chosen order; the complete grid {1 s before, at, 1 s after} each expiry x each of the 5 time-set fields (the governing one = attribution, the other four = non-attribution, others at T0) x applicable option levels; {-1,0,+1 s} around notBefore of the 4 path roles; 24 tape-chosen skewed time sets; a monotone timeline through all boundaries. Every verdict is compared both ways with the model 'accept iff each artifact is in date at its own field'. " +
+		Rule: "per run one seeded world whose 13 artifacts (PCK leaf / intermediate / root copy; TCB-Info nextUpdate, signer, root copy; QE-Identity nextUpdate, signer, root copy; PCK-CRL nextUpdate, issuer, root copy; Root-CRL nextUpdate) expire at 13 distinct instants in tape-chosen order; the complete grid {1 s before, at, +1 ns, a tape-chosen sub-second offset, +999999999 ns, 1 s after} each expiry x each of the 5 time-set fields (the governing one = attribution, the other four = non-attribution, others at T0) x applicable option levels; {-1,0,+1 s} around notBefore of the 4 path roles; 24 tape-chosen skewed time sets; a monotone timeline through all boundaries; in a third of the worlds the JSON documents carry an unusual issueDate (absent, null, year 1 / 1700 / 9999) and the CRLs a thisUpdate of 1700 (acceptances only are judged there). Every verdict is compared both ways with the model 'accept iff each artifact is in date at its own field'. " +
 			"distinct = (artifact, offset, field)",
 		Exhaustive: true,
 		Assumptions: []string{
@@ -319,7 +359,7 @@ func init() {
 			return 24
 		},
 		Run:         c06Run,
-		MustProbe:   []string{"instant_exactly_at_expiry", "instant_carried_in_non_utc_zone", "documents_share_one_issuer_chain"},
+		MustProbe:   []string{"instant_exactly_at_expiry", "instant_inside_the_second_after_expiry", "instant_carried_in_non_utc_zone", "documents_share_one_issuer_chain", "unusual_issue_date"},
 		SimTimeNote: "span of simulated instants covered by the monotone timeline of each world (years)",
 	})
 }
